@@ -83,16 +83,19 @@ func (m *ctxMachine) do(s CtxStep) (out ctxOut) {
 		c.SetMode(decimal.RoundingMode(200))
 		defer c.SetMode(old)
 		one, three, sz := new(decimal.Decimal).SetInt64(1), new(decimal.Decimal).SetInt64(3), new(decimal.Decimal)
+		// every operand choice below is inexact at the context's precision, whatever it is
+		far := int(c.Prec()) + 40
+		third := new(decimal.Decimal).SetPrec(uint(far)).Quo(one, three)
 		var r *decimal.Decimal
 		switch s.Op {
 		case "add":
-			r = c.Add(sz, one, new(decimal.Decimal).SetMantExp(three, -200))
+			r = c.Add(sz, one, new(decimal.Decimal).SetMantExp(three, -far))
 		case "sub":
-			r = c.Sub(sz, one, new(decimal.Decimal).SetMantExp(three, -200))
+			r = c.Sub(sz, one, new(decimal.Decimal).SetMantExp(three, -far))
 		case "mul":
-			r = c.Mul(sz, new(decimal.Decimal).SetPrec(300).Quo(one, three), three)
+			r = c.Mul(sz, third, third)
 		case "fma":
-			r = c.FMA(sz, new(decimal.Decimal).SetPrec(300).Quo(one, three), three, one)
+			r = c.FMA(sz, third, third, one)
 		case "sqrt":
 			r = c.Sqrt(sz, three)
 		default:
